@@ -288,19 +288,24 @@ class WKCResource(Resource):
                 def matchexp(x, v=v):
                     return x == v
 
+            # k and matchexp are bound as default arguments so that each
+            # filter keeps evaluating its own query argument when there are
+            # several
             if k in ("rt", "if", "ct"):
                 filters.append(
-                    lambda link: any(
+                    lambda link, k=k, matchexp=matchexp: any(
                         matchexp(part)
                         for value in _attribute_values(link, k)
                         for part in value.split(" ")
                     )
                 )
             elif k in ("href",):  # x.href is single valued
-                filters.append(lambda link: matchexp(getattr(link, k)))
+                filters.append(
+                    lambda link, k=k, matchexp=matchexp: matchexp(getattr(link, k))
+                )
             else:
                 filters.append(
-                    lambda link: any(
+                    lambda link, k=k, matchexp=matchexp: any(
                         matchexp(part) for part in _attribute_values(link, k)
                     )
                 )
